@@ -5,6 +5,7 @@
         -> lines=info depth D score cp|mate V [upperbound|lowerbound] [multipv K] pv ... / ...
      P|first|rootlegal|zh,hh,legal,ttmove;...                     (extractPVMoves, getPonderMove over the chain world)
         -> pv=..|ponder=..
+     T|...   replay of a recorded root trace (see cmd_t)
    Moves are UCI strings; the promotion letter is kept as a code (q=1 r=2 b=3 n=4). *)
 open Root_model
 
@@ -138,7 +139,58 @@ let cmd_p f =
   let pm = getPonderMove probe mk legalAt hh () 0 first in
   "pv=" ^ pv ^ "|ponder=" ^ string_of_move pm
 
-(*TRACE*)
+(* ---- T: replay of a recorded root trace through iterativeDeepeningFrom ----
+   T|maxPV|maxDepth|noTime|onlyExact|m:score ...|quiet moves|events        events separated by ';':
+       R,score,nodes,tMove,tIter,pv moves   (one per returned negaScoutRoot call)   |   X  (StopSearch)
+   World: a position is the list of moves played from the root; hashes are injective; the table content after
+   a search is represented by the PV the engine stored for it: probing the position reached by a prefix of
+   that PV answers its next move (which the engine found legal), anything else is a miss.  The replay checks
+   in passing that the move the model searches with an event is the move the engine searched. *)
+let cmd_t f =
+  let maxPV = int_of_string (List.nth f 1) and maxDepth = int_of_string (List.nth f 2) in
+  let noTime = bool_of (List.nth f 3) and onlyExact = bool_of (List.nth f 4) in
+  let roots = List.map (fun p -> match split ':' p with [m; s] -> (move_of_string m, z_of_int (int_of_string s)) | _ -> failwith "root")
+      (words (List.nth f 5)) in
+  let quiet = moves_of (List.nth f 6) in
+  let events = List.map (fun s ->
+      match split ',' s with
+      | ["X"] -> EvStop
+      | [ "R"; sc; nd; tm; ti; pv ] ->
+        EvRet (z_of_int (int_of_string sc), z_of_int (int_of_string nd), moves_of pv, bool_of tm, bool_of ti)
+      | _ -> failwith "event") (List.filter (fun x -> x <> "") (split ';' (List.nth f 7))) in
+  (* positions = reversed move lists, interned to give injective hashes *)
+  let ids : (move list, int) Hashtbl.t = Hashtbl.create 256 in
+  let back : (int, move list) Hashtbl.t = Hashtbl.create 256 in
+  let id_of p = match Hashtbl.find_opt ids p with
+    | Some i -> i
+    | None -> let i = Hashtbl.length ids + 1 in Hashtbl.replace ids p i; Hashtbl.replace back i p; i in
+  let zh p = n_of_int (id_of p) in
+  let mk p m = m :: p in
+  let rec next_of pv played = match pv, played with
+    | x :: _, [] -> Some x
+    | x :: t, y :: u -> if x = y then next_of t u else None
+    | [], _ -> None in
+  let last_answer = ref None in
+  let mismatch = ref "" in
+  let probe (tab : move list) k =
+    let p = try Hashtbl.find back (int_of_n k) with Not_found -> [] in
+    let played = List.rev p in
+    (match played, tab with
+     | [m], t0 :: _ when m <> t0 && !mismatch = "" ->
+       mismatch := "model searches " ^ string_of_move m ^ " where the engine searched " ^ string_of_move t0
+     | _ -> ());
+    let r = next_of tab played in
+    last_answer := r; r in
+  let rootlegal = List.map fst roots in
+  let legalAt p = if p = [] then rootlegal else (match !last_answer with Some m -> [m] | None -> []) in
+  let cfg = { c_maxPV = nat_of_int maxPV; c_maxDepth = z_of_int maxDepth; c_onlyExact = onlyExact; c_noTimeLimit = noTime;
+              c_quiet = (fun m -> List.mem m quiet); c_fuelPV = nat_of_int 400; c_fuelTB = nat_of_int 1 } in
+  let rm = List.map newMI roots in
+  match iterativeDeepeningFrom probe mk legalAt zh zh (fun _ _ -> None) (fun _ -> Z0) (fun _ -> true) [] cfg rm events with
+  | Answer (b, reps) ->
+    "best=" ^ string_of_move b ^ "|mismatch=" ^ !mismatch ^ "|lines=" ^ String.concat " / " (List.map report_to_string (List.filter (fun r -> r <> []) reps))
+  | OutOfFuel -> "FUEL"
+
 let () =
   try
     while true do
@@ -151,7 +203,7 @@ let () =
              | "S" -> cmd_s f
              | "N" -> cmd_n f
              | "P" -> cmd_p f
-(*TRACECASE*)
+             | "T" -> cmd_t f
              | _ -> "ERR bad command")
           with e -> "ERR " ^ Printexc.to_string e in
         print_endline res
